@@ -377,6 +377,19 @@ def run(tier="quick", seed=0, pid=None):
             ok = got.get("items") == want_items and got.get("table") == want_table
         if not ok:
             fail("C20", "handler_at_every_depth", {"value": "Holder with handler-only typed values: " + where}, "dump gave %r" % (got,))
+    # handlers registered in a Config after it has already been used apply from then on, and removed ones stop applying
+    n += 1
+    cfg4 = C.Config()
+    hb = m.Holder()
+    hb.items, hb.table = datetime.date(2021, 1, 2), {}
+    first = JC.dump(hb, config=cfg4)
+    cfg4.serialize_handlers[datetime.date] = h_date
+    second = JC.dump(hb, config=cfg4)
+    del cfg4.serialize_handlers[datetime.date]
+    third = JC.dump(hb, config=cfg4)
+    if "items" in first or second.get("items") != {"date!": "2021-01-02"} or "items" in third:
+        fail("C20", "handler_at_every_depth", {"value": "handler registered after the first dump with the same Config"},
+             "dumps gave %r / %r / %r" % (first.get("items"), second.get("items"), third.get("items")))
     h = m.Holder()
     h.items = [(9,)]
     h.table = {"t": (8,)}
